@@ -455,9 +455,9 @@ func (st *Runtime) executeList(list *ListNode) (returnValue reflect.Value) {
 			}
 
 			if isTrue(st.evalPrimaryExpressionGroup(node.Expression)) {
-				returnValue = st.executeList(node.List)
+				keepReturnValue(&returnValue, st.executeList(node.List))
 			} else if node.ElseList != nil {
-				returnValue = st.executeList(node.ElseList)
+				keepReturnValue(&returnValue, st.executeList(node.ElseList))
 			}
 			if isLet {
 				st.releaseScope()
@@ -501,7 +501,10 @@ func (st *Runtime) executeList(list *ListNode) (returnValue reflect.Value) {
 
 			indexValue, rangeValue, end := ranger.Range()
 			if !end {
-				for !end && !returnValue.IsValid() {
+				// the loop ends early once its own body has returned a value; a value
+				// returned before the loop must neither skip the loop nor get lost
+				var loopReturnValue reflect.Value
+				for !end && !loopReturnValue.IsValid() {
 					if isSet {
 						if isLet {
 							if keyVarSlot >= 0 {
@@ -523,11 +526,12 @@ func (st *Runtime) executeList(list *ListNode) (returnValue reflect.Value) {
 						// unwrap interface{} elements like every other access path does
 						st.context = indirectEface(rangeValue)
 					}
-					returnValue = st.executeList(node.List)
+					loopReturnValue = st.executeList(node.List)
 					indexValue, rangeValue, end = ranger.Range()
 				}
+				keepReturnValue(&returnValue, loopReturnValue)
 			} else if node.ElseList != nil {
-				returnValue = st.executeList(node.ElseList)
+				keepReturnValue(&returnValue, st.executeList(node.ElseList))
 			}
 			cleanup()
 			st.context = context
@@ -536,7 +540,7 @@ func (st *Runtime) executeList(list *ListNode) (returnValue reflect.Value) {
 			}
 		case NodeTry:
 			node := node.(*TryNode)
-			returnValue = st.executeTry(node)
+			keepReturnValue(&returnValue, st.executeTry(node))
 		case NodeYield:
 			node := node.(*YieldNode)
 			if node.IsContent {
@@ -559,7 +563,7 @@ func (st *Runtime) executeList(list *ListNode) (returnValue reflect.Value) {
 			st.executeYieldBlock(block, block.Parameters, block.Parameters, block.Expression, block.Content)
 		case NodeInclude:
 			node := node.(*IncludeNode)
-			returnValue = st.executeInclude(node)
+			keepReturnValue(&returnValue, st.executeInclude(node))
 		case NodeReturn:
 			node := node.(*ReturnNode)
 			returnValue = st.evalPrimaryExpressionGroup(node.Value)
@@ -567,6 +571,14 @@ func (st *Runtime) executeList(list *ListNode) (returnValue reflect.Value) {
 	}
 
 	return returnValue
+}
+
+// keepReturnValue records the value a nested list returned, if it returned one: statements
+// that return nothing must not discard a value returned by an earlier {{return}}.
+func keepReturnValue(returnValue *reflect.Value, v reflect.Value) {
+	if v.IsValid() {
+		*returnValue = v
+	}
 }
 
 func (st *Runtime) executeTry(try *TryNode) (returnValue reflect.Value) {
